@@ -88,6 +88,18 @@ pub fn fixture(tier: Tier) -> Result<Fixture, Violation> {
     let _ = nc::srv_process(&mut full_t1_used, third, &t1.request)?;
     let mut room_t1_used = new_server(2, public.clone(), Duration::ZERO);
     let _ = nc::srv_process(&mut room_t1_used, third, &t1.request)?;
+    // the same, and the source itself is half-open through another valid token of its own
+    let mut t1_used_source_pending = room_t1_used.clone();
+    let _ = nc::srv_process(&mut t1_used_source_pending, source, &t2.request)?;
+    let mut full_t1_used_source_pending = {
+        let mut s = new_server(1, public.clone(), Duration::ZERO);
+        nc::srv_process(&mut s, source, &t2.request)?;
+        let mut c = new_client(Duration::ZERO, &t3.token);
+        nc::connect(&mut s, &mut c, other)?;
+        let _ = nc::srv_process(&mut s, third, &t1.request)?;
+        s
+    };
+    full_t1_used_source_pending.update(Duration::from_millis(10));
     let states = vec![
         State { name: "empty", server: empty, t1_used_elsewhere: false },
         State { name: "source pending", server: source_pending, t1_used_elsewhere: false },
@@ -98,6 +110,8 @@ pub fn fixture(tier: Tier) -> Result<Fixture, Violation> {
         State { name: "source pending and a second token of the same client id pending elsewhere", server: both_pending_same_id, t1_used_elsewhere: false },
         State { name: "server full, token already presented from another address", server: full_t1_used, t1_used_elsewhere: true },
         State { name: "room left, token already presented from another address", server: room_t1_used, t1_used_elsewhere: true },
+        State { name: "room left, token already presented from another address, the source is half-open through another token", server: t1_used_source_pending, t1_used_elsewhere: true },
+        State { name: "server full, token already presented from another address, the source is half-open through another token", server: full_t1_used_source_pending, t1_used_elsewhere: true },
     ];
     // datagrams
     let mut d: Vec<Dgram> = vec![];
